@@ -161,62 +161,84 @@ func (c *Client) connect() error {
 // handshake puts the connection into message (or forward) mode, at which time
 // the client is free to send event messages.
 func (c *Client) Handshake() error {
-	c.sessionLock.RLock()
-	defer c.sessionLock.RUnlock()
-
-	if c.session == nil {
-		return errors.New("not connected")
-	}
-
-	var helo protocol.Helo
-
-	r := msgp.NewReader(c.session.Connection)
-	err := helo.DecodeMsg(r)
-
+	session, err := c.handshake()
 	if err != nil {
 		return err
 	}
 
+	// Senders and TransportPhase() read the flag holding the shared lock, so it
+	// is set holding the exclusive one, and only if the session the handshake
+	// ran on is still the current one.
+	c.sessionLock.Lock()
+	defer c.sessionLock.Unlock()
+
+	if c.session != session {
+		return errors.New("session was replaced during the handshake")
+	}
+
+	session.TransportPhase = true
+
+	return nil
+}
+
+// handshake exchanges HELO, PING and PONG on the current session while holding
+// the shared lock and returns that session when the peer proved the shared key.
+func (c *Client) handshake() (*Session, error) {
+	c.sessionLock.RLock()
+	defer c.sessionLock.RUnlock()
+
+	session := c.session
+	if session == nil {
+		return nil, errors.New("not connected")
+	}
+
+	var helo protocol.Helo
+
+	r := msgp.NewReader(session.Connection)
+	err := helo.DecodeMsg(r)
+
+	if err != nil {
+		return nil, err
+	}
+
 	if helo.Options == nil {
-		return errors.New("HELO message has no options")
+		return nil, errors.New("HELO message has no options")
 	}
 
 	salt := make([]byte, 16)
 
 	_, err = rand.Read(salt)
 	if err != nil {
-		return err
+		return nil, err
 	}
 
 	ping, err := protocol.NewPing(c.Hostname, c.AuthInfo.SharedKey, salt, helo.Options.Nonce)
 	if err != nil {
-		return err
+		return nil, err
 	}
 
-	err = msgp.Encode(c.session.Connection, ping)
+	err = msgp.Encode(session.Connection, ping)
 	if err != nil {
-		return err
+		return nil, err
 	}
 
 	var pong protocol.Pong
 
 	err = pong.DecodeMsg(r)
 	if err != nil {
-		return err
+		return nil, err
 	}
 
 	if !pong.AuthResult {
-		return fmt.Errorf("authentication rejected by the server: %s", pong.Reason)
+		return nil, fmt.Errorf("authentication rejected by the server: %s", pong.Reason)
 	}
 
 	if err := protocol.ValidatePongDigest(&pong, c.AuthInfo.SharedKey,
 		helo.Options.Nonce, salt); err != nil {
-		return err
+		return nil, err
 	}
 
-	c.session.TransportPhase = true
-
-	return nil
+	return session, nil
 }
 
 // Connect initializes the Session and Connection objects by opening
